@@ -372,6 +372,15 @@ func (s *Storer) GetRdbWriter(r io.Reader, offset int64, rdbSize int64) (*RdbWri
 func (s *Storer) newRdbWCloseObserver(w *RdbWriter, rdb *dataSetRdb) func(args ...interface{}) {
 	return func(args ...interface{}) {
 		rdb.DelWriter(w)
+		// args : left, size, incomplete. An incomplete snapshot has just been removed from disk,
+		// it must not be offered for replay any more
+		if len(args) > 2 {
+			if incomplete, ok := args[2].(bool); ok && incomplete {
+				if ds := s.getDataSet(); ds != nil && ds.GetRdb() == rdb {
+					ds.SetRdb(nil)
+				}
+			}
+		}
 	}
 }
 
